@@ -1,3 +1,77 @@
+/-
+C09 — Retention removes only whole oldest segments, no more than the limits require.
+Theorems about `Liftbridge.Retention.clean` for EVERY segment layout and EVERY combination of
+the three limits (induction over the segment list).
+-/
 import Liftbridge.Model.Retention
+import Liftbridge.Proofs.Retention
+
 namespace Liftbridge.Props.C09
+open Liftbridge Liftbridge.Log Liftbridge.Retention Liftbridge.Proofs.Retention
+
+def total (size : Seg → Int) (segs : List Seg) : Int := (segs.map size).sum
+
+/-- Only whole segments from the oldest end are removed: the result is a suffix. -/
+theorem clean_suffix (lim : Limits) (ttl : Int) (segs : List Seg) :
+    ∃ k, clean lim ttl segs = segs.drop k := clean_suffix' lim ttl segs
+
+/-- The newest segment always survives. -/
+theorem clean_keeps_last (lim : Limits) (ttl : Int) (segs : List Seg) (h : segs ≠ []) :
+    (clean lim ttl segs).getLast? = segs.getLast? := clean_keeps_last' lim ttl segs h
+
+/-- Afterwards the message-count limit holds unless only the newest segment remains. -/
+theorem msgs_limit_holds (lim : Limits) (ttl : Int) (segs : List Seg) (hm : 0 < lim.msgs)
+    (hl : 1 < (clean lim ttl segs).length) : total msgSize (clean lim ttl segs) ≤ lim.msgs :=
+  msgs_limit_holds' lim ttl segs hm hl
+
+/-- Afterwards the byte limit holds unless only the newest segment remains. -/
+theorem bytes_limit_holds (lim : Limits) (ttl : Int) (segs : List Seg) (hb : 0 < lim.bytes)
+    (hl : 1 < (clean lim ttl segs).length) : total byteSize (clean lim ttl segs) ≤ lim.bytes :=
+  bytes_limit_holds' lim ttl segs hb hl
+
+/-- Afterwards the age limit holds for the oldest surviving segment unless only the newest remains
+(and hence, when last-write times are non-decreasing along the log, for every surviving one). -/
+theorem age_limit_holds (lim : Limits) (ttl : Int) (segs : List Seg) (ha : 0 < lim.age)
+    (hl : 1 < (clean lim ttl segs).length) :
+    ∀ s, (clean lim ttl segs).head? = some s → ttl ≤ s.lastTs :=
+  age_limit_holds' lim ttl segs ha hl
+
+/-- With non-decreasing last-write times the age limit holds for every surviving segment. -/
+theorem age_limit_holds_sorted (lim : Limits) (ttl : Int) (segs : List Seg) (ha : 0 < lim.age)
+    (hl : 1 < (clean lim ttl segs).length)
+    (hsorted : segs.Pairwise (fun a b => a.lastTs ≤ b.lastTs)) :
+    ∀ s ∈ clean lim ttl segs, ttl ≤ s.lastTs :=
+  age_limit_sorted lim ttl segs ha hl hsorted
+
+/-- The pre-fix pipeline (`cleanOld`: age, messages, bytes, no second age pass) could leave more
+than one segment with the oldest survivor older than the TTL: last-write times 10, 0, 0 (one message
+each), ttl 5, age limit on, at most 2 messages — the age pass keeps everything (the first segment
+is young), the count pass removes that first segment and uncovers two old ones. This is why `clean`
+applies the age limit a second time. -/
+theorem old_pipeline_violates_age :
+    ∃ lim ttl segs, 0 < lim.age ∧ 1 < (cleanOld lim ttl segs).length ∧
+      ∃ s, (cleanOld lim ttl segs).head? = some s ∧ s.lastTs < ttl :=
+  ⟨cexLim, cexTtl, cexSegs, by decide, by decide, cexSeg 0, by decide, by decide⟩
+
+/-- A configured limit that the segments `s :: rest` (oldest first) would violate. -/
+def Violates (lim : Limits) (ttl : Int) (s : Seg) (rest : List Seg) : Prop :=
+  (0 < lim.age ∧ s.lastTs < ttl) ∨
+  (0 < lim.msgs ∧ lim.msgs < total msgSize (s :: rest)) ∨
+  (0 < lim.bytes ∧ lim.bytes < total byteSize (s :: rest))
+
+/-- Minimality: no segment is removed unless keeping it (together with everything newer that
+was kept) would violate a configured limit. -/
+theorem clean_minimal (lim : Limits) (ttl : Int) (segs : List Seg) (k : Nat) (s : Seg)
+    (hk : clean lim ttl segs = segs.drop (k + 1)) (hs : segs[k]? = some s) :
+    Violates lim ttl s (segs.drop (k + 1)) := clean_minimal' lim ttl segs k s hk hs
+
+/-- With no limit configured nothing is removed. -/
+theorem clean_no_limits (ttl : Int) (segs : List Seg) : clean ⟨0, 0, 0⟩ ttl segs = segs := by
+  simp [clean]
+
+/-- Repeating a clean (same clock) removes nothing more. -/
+theorem clean_idempotent (lim : Limits) (ttl : Int) (segs : List Seg) :
+    clean lim ttl (clean lim ttl segs) = clean lim ttl segs :=
+  clean_idempotent' lim ttl segs
+
 end Liftbridge.Props.C09
